@@ -56,16 +56,19 @@ func checkC08(c *Ctx) {
 		"G-C08-ske: the GMSSL client cannot build its ClientKeyExchange without a ServerKeyExchange that passed processServerKeyExchange; that function rejects a signature that does not verify under the signing certificate's key over client_random || server_random || encryption certificate, and the server signs the same bytes",
 		"G-C08-finished: every readFinished compares the peer's verify_data with the locally computed one in constant time (and its length) and rejects a mismatch; no success bypasses the comparison",
 		"G-C08-clientauth: the server verifies client chains against ClientCAs for the verifying policies, rejects an empty certificate list for the requiring policies, and with a client certificate present requires a CertificateVerify whose signature check cannot be bypassed",
+		"G-C08-callback: when Config.VerifyPeerCertificate is set, neither client can complete the full handshake without calling it (with or without the built-in verification)",
 		"G-C08-transcript: every handshake message sent with writeRecord(recordTypeHandshake, m.marshal()) is also fed to the transcript hash")
 	c.NotDec = append(c.NotDec, "unforgeability of the signatures and the PRF (cryptographic)", "that both sides abort under every single-field rewrite (follows from the transcript rule plus Finished, given the PRF)", "certificate path validation itself (C10)")
 	c08Chain(c)
 	c08Roots(c)
+	c08Callback(c)
 	c08KeyUsage(c)
 	c08PreMaster(c)
 	c08SKE(c)
 	c08Finished(c)
 	c08ClientAuth(c)
 	c08Transcript(c)
+	c16Gate(c) // a resumed session must satisfy the client-certificate policy too (the gate rule of C16)
 	lostReceiverStores(c, "G-C08-transcript", "gmtls")
 }
 
@@ -774,6 +777,30 @@ func c08Roots(c *Ctx) {
 	if n < 4 {
 		c.Undecided(rule, "gmtls", "AddCert call sites", fmt.Sprintf("only %d found", n), token.NoPos)
 	}
+	// the GMSSL client adds getCAs() to the caller's root pool before verifying: that list must be empty — the only
+	// trust anchors are the ones the caller configured (the function keeps a disabled list of built-in CA
+	// certificates behind an early `return nil`)
+	if g := c.Fn("gmtls", "getCAs"); g != nil {
+		okNil := true
+		var pos token.Pos
+		for _, b := range reachableBlocks(g) {
+			if ret, ok := b.Instrs[len(b.Instrs)-1].(*ssa.Return); ok && len(ret.Results) == 1 && !isNilConst(ret.Results[0]) {
+				okNil = false
+				pos = ret.Pos()
+			}
+		}
+		c.Check(okNil, rule, fname(g), "no built-in certificate authorities are added to the caller's roots", "every reachable return yields nil", "getCAs can return certificates, and the GMSSL client adds them to the configured RootCAs pool before verifying the server: servers certified by those built-in authorities are accepted although the caller never trusted them (and the caller's pool object is modified)", pos)
+	}
+}
+
+// reachableBlocks: blocks reachable from the entry (go/ssa keeps code after an unconditional return out of the graph,
+// but a function may also contain blocks cut off by constant conditions)
+func reachableBlocks(f *ssa.Function) []*ssa.BasicBlock {
+	var out []*ssa.BasicBlock
+	for b := range reach([]*ssa.BasicBlock{f.Blocks[0]}, deadEdges(f)) {
+		out = append(out, b)
+	}
+	return out
 }
 
 // emptyCertListEdges: the edges taken when the received client Certificate message carries no certificate
@@ -1220,5 +1247,71 @@ func lostReceiverStores(c *Ctx, rule, pkg string) {
 	}
 	if n == 0 {
 		c.Undecided(rule, pkg, "methods with value receivers", "none found", token.NoPos)
+	}
+}
+
+// c08Callback: Config.VerifyPeerCertificate, when set, is consulted on every path of the clients' full handshake:
+// ASSUME the field is non-nil; with the edges into the block(s) that call it removed, no successful return is reachable.
+func c08Callback(c *Ctx) {
+	rule := "G-C08-callback"
+	isField := func(v ssa.Value) bool {
+		ld, ok := v.(*ssa.UnOp)
+		if !ok || ld.Op != token.MUL {
+			return false
+		}
+		fa, ok := ld.X.(*ssa.FieldAddr)
+		return ok && fieldName(fa.X.Type(), fa.Field) == "VerifyPeerCertificate"
+	}
+	for _, name := range []string{"(*clientHandshakeState).doFullHandshake", "(*clientHandshakeStateGM).doFullHandshake"} {
+		f := c.Fn("gmtls", name)
+		if f == nil {
+			c.Missing(rule, "gmtls."+name, "method", "not found")
+			continue
+		}
+		cut := map[edge]bool{}
+		n := 0
+		for _, ci := range allCalls(f) {
+			call, ok := ci.(*ssa.Call)
+			if !ok || call.Call.IsInvoke() || call.Call.StaticCallee() != nil || !isField(call.Call.Value) {
+				continue
+			}
+			n++
+			for _, p := range call.Block().Preds {
+				cut[edge{p, call.Block()}] = true
+			}
+		}
+		if n == 0 {
+			c.Violated(rule, fname(f), "VerifyPeerCertificate is called", "the client never calls Config.VerifyPeerCertificate: an application that pins or re-checks the peer certificate there is silently bypassed", f.Pos())
+			continue
+		}
+		spec, _ := defaultResultSpec(f)
+		saved := condEval
+		condEval = func(v ssa.Value) (bool, bool) {
+			if bo, ok := v.(*ssa.BinOp); ok && (bo.Op == token.NEQ || bo.Op == token.EQL) {
+				if (isField(bo.X) && isNilConst(bo.Y)) || (isField(bo.Y) && isNilConst(bo.X)) {
+					return bo.Op == token.NEQ, true
+				}
+			}
+			if saved != nil {
+				return saved(v)
+			}
+			return false, false
+		}
+		// first handshake of the connection (a renegotiation only requires the certificate to be unchanged)
+		var r bool
+		var w *ssa.BasicBlock
+		inner := condEval
+		assumeFieldValue("handshakes", 0, func() {
+			fv := condEval
+			condEval = func(v ssa.Value) (bool, bool) {
+				if b, known := inner(v); known {
+					return b, true
+				}
+				return fv(v)
+			}
+			r, w = canReachSuccess(f.Blocks[0], nil, successExits(f, spec), mergeEdges(cut, deadEdges(f), fieldValueCut(f, "handshakes", 0)))
+		})
+		condEval = saved
+		c.Check(!r, rule, fname(f), "with VerifyPeerCertificate set, the handshake cannot succeed without calling it", "", "assuming Config.VerifyPeerCertificate != nil, the successful return at "+c.P.pos(lastPos(w))+" is reachable on a path that does not call it: the application's own check of the peer certificate (a pin, an extra policy) is skipped", lastPos(w))
 	}
 }
